@@ -25,7 +25,7 @@ RULE = ('three families: (a) Hypothesis-generated multi-label programs (1-8 labe
 
 def run_asmtool(src_text, scratch, timeout=10, extra=()):
     sp = os.path.join(scratch, 'p.S')
-    with open(sp, 'w') as f:
+    with open(sp, 'w', encoding='latin-1') as f:
         f.write(src_text)
     try:
         r = subprocess.run([build.exe('asmtool'), sp, '--out', os.path.join(scratch, 'p.bin')] + list(extra),
